@@ -27,6 +27,7 @@ FUSED = ["auto_add", "auto_add_assign", "auto_sub", "auto_sub_assign", "auto_sub
 AUTO = ["auto", "auto_assign"] + FUSED
 GLWE_OPS = ["ks", "ks_assign"] + AUTO + ["trace", "trace_assign"]
 PACK = ["pack", "packer"]
+MAT = ["gglwe_ks", "gglwe_ks_assign", "atk_auto", "atk_auto_assign"]
 STALE_KEY = "poulpy-core/src/automorphism/glwe_ct.rs:glwe_automorphism_{add,sub,sub_negate}{,_assign}:res_dft-not-zeroed:dsize>=3"
 
 
@@ -155,6 +156,8 @@ def harness_line(cid, c, be, dirty):
     extra = ""
     if c["op"] in PACK:
         extra = f" slots={','.join(str(x) for x in c['slots']) or '-'} lgap={c['lgap']}"
+    if c["op"] in MAT:
+        extra = f" r0={c['r0']} adnum={c['adnum']} adsize={c['adsize']} rdnum={c['rdnum']} pa={c['pa']}"
     return f"{cid} " + " ".join(f"{k}={c[k]}" for k in keys) + extra + f" be={be} dirty={dirty}"
 
 
@@ -165,7 +168,7 @@ def sout_of(c):
 def model_line(cid, c, ans, big):
     return (f"{cid} ks op={c['op']} big={big} n={c['n']} bin={c['bin']} bkey={c['bkey']} bout={c['bout']} sout={sout_of(c)} "
             f"rin={c['rin']} rout={c['rout']} dsize={c['dsize']} skip={c['skip']} idx={c['idx']} nlin={c['nlin']} nlout={c['nlout']} "
-            f"dft0={(cid % 3) * 12345} lgap={c.get('lgap', 0)} "
+            f"dft0={(cid % 3) * 12345} lgap={c.get('lgap', 0)} r0={c.get('r0', 0)} adsize={c.get('adsize', 0)} rdnum={c.get('rdnum', 0)} "
             f"keys={ans['keys']} a={ans['a']}")
 
 
@@ -278,6 +281,52 @@ def generate(ctx, rng):
         if c["op"] == "extract":
             c["bout"] = c["bin"]
     cases += generate_pack(ctx, rng)
+    cases += generate_mat(ctx, rng)
+    return cases
+
+
+def generate_mat(ctx, rng):
+    """key-switching of switching keys and automorphism of automorphism keys (loops of the GLWE forms over the rows)"""
+    quick = ctx.tier == "quick"
+    cases = []
+    for k in range(48 if quick else 600):
+        n = [8, 16, 32][k % 3]
+        op = MAT[k % 4]
+        c = shape(rng, "ks", n, ntt_only=(k % 9 == 8), force={"dsize": [1, 2, 3, 1][k % 4]})
+        c["op"] = op
+        # the GGLWE operand A lives in the "input" layout (bin, kin): kin must hold adnum*adsize limbs and more than adsize
+        adsize = rng.choice([1, 1, 2])
+        adnum = rng.range(1, 3)
+        sa = adnum * adsize + rng.range(0, 1)
+        if sa <= adsize:
+            sa = adsize + 1
+        c["kin"] = sa * c["bin"]
+        c["adsize"], c["adnum"], c["rdnum"] = adsize, adnum, rng.range(1, adnum)
+        c["r0"] = rng.range(1, 2)
+        c["bout"] = c["bin"]                       # assert_eq!(res.base2k(), a.base2k())
+        c["kout"] = max(c["kout"], (c["rdnum"] * adsize + 1) * c["bin"]) if op.endswith("_ks") or op == "atk_auto" else c["kout"]
+        if ceil_div(c["kout"], c["bout"]) > 6:
+            c["kout"] = 6 * c["bout"]
+        # the key must cover the operand in its own radix
+        a_size = ceil_div(sa * c["bin"], c["bkey"])
+        c["dnum"] = max(1, ceil_div(a_size, c["dsize"]) + rng.range(-1, 1))
+        skey = c["dnum"] * c["dsize"] + rng.choice([0, 1, 2])
+        if skey <= c["dsize"]:
+            skey = c["dsize"] + 1
+        c["kkey"] = skey * c["bkey"]
+        if op.startswith("atk"):
+            c["rout"] = c["rin"]
+            c["r0"] = c["rin"]
+            c["pa"] = 2 * rng.below(n) + 1
+            c["p"] = rng.choice([-1, 2 * rng.below(n) + 1, -(2 * rng.below(n) + 1)])
+        else:
+            c["pa"] = 1
+        if op.endswith("_assign"):
+            c["rdnum"] = adnum
+            c["kout"] = c["kin"]
+            c["rout"] = c["rin"]
+        c["cls"] = "enc"
+        cases.append(c)
     return cases
 
 
@@ -559,10 +608,65 @@ def pack_expected_and_bound(c, ans):
     return pout, exp, D, nops * unit, list(range(n)), worst
 
 
+def s_ct(cols):
+    return ";".join("|".join(",".join(str(x) for x in l) for l in col) for col in cols)
+
+
+def rust_rem(a, m):
+    r = abs(a) % m
+    return -r if a < 0 else r
+
+
+def mat_oracle(c, ans):
+    """every ciphertext of the result matrix is the key-switch of the corresponding ciphertext of the operand:
+    the `ks` oracle row by row (for the automorphism of an automorphism key: after conjugation by sigma_pa)"""
+    n, op = c["n"], c["op"]
+    a_txt, r_txt = ans["a"], ans["res"]
+    if r_txt.startswith("panic:"):
+        return None
+    if op.startswith("atk"):
+        pa, a_body = a_txt.split(":", 1)
+        pr, r_body = r_txt.split(":", 1)
+        pa, pr = int(pa), int(pr)
+        q = int(ans["keys"].split(":", 1)[0])
+        if pr != rust_rem(pa * q, 2 * n):
+            return f"Galois element of the result is {pr}, expected {rust_rem(pa * q, 2 * n)}"
+    else:
+        a_body, r_body, pa, q = a_txt, r_txt, 1, 1
+    rows_in = a_body.split("/")
+    rows_out = r_body.split("/")
+    sk = [p_poly(x) for x in ans["skin"].split(";")]
+    worst_msg = None
+    dev_max = None
+    for idx, ro in enumerate(rows_out):
+        ci = p_ct(rows_in[idx])
+        co = p_ct(ro)
+        if op.startswith("atk"):
+            ci = [[aut(l, pa) for l in col] for col in ci]
+            co = [[aut(l, pa) for l in col] for col in co]
+            sub = {"skin": ans["skin"], "skout": ";".join(",".join(str(x) for x in aut(s_, inv_mod(q, 2 * n))) for s_ in sk)}
+        else:
+            sub = {"skin": ans["skin"], "skout": ans["skout"]}
+        sub.update({"keys": "0:" + ans["keys"].split(":", 1)[1], "a": s_ct(ci), "res": s_ct(co)})
+        cc = dict(c, op="ks", rout=len(co) - 1)
+        try:
+            pout, exp, D, B, idxs, worst = expected_and_bound(cc, sub)
+        except OracleFail as e:
+            return f"oracle: {e}"
+        dev = max(abs(centered(pout[t] - exp[t], D)) for t in idxs)
+        if dev > B:
+            return f"row {idx}: phase deviates by 2^{dev.bit_length() - D} > bound 2^{B.bit_length() - D}"
+        c["_dev_bits"] = (dev.bit_length() - D) if dev else None
+        c["_bound_bits"] = B.bit_length() - D
+    return None
+
+
 def oracle(c, ans):
     """None if the implementation's own output satisfies the property, else a description"""
     if c["op"] == "extract" or ans["res"].startswith("panic:"):
         return None
+    if c["op"] in MAT:
+        return mat_oracle(c, ans)
     try:
         r = pack_expected_and_bound(c, ans) if c["op"] in PACK else expected_and_bound(c, ans)
     except OracleFail as e:
@@ -583,6 +687,9 @@ def class_key(c):
     rel = lambda x, y: "=" if x == y else ("<" if x < y else ">")
     a_size = ceil_div(ceil_div(c["kin"], c["bin"]) * c["bin"], c["bkey"])
     needed = ceil_div(a_size, c["dsize"])
+    if c["op"] in MAT:
+        return (c["op"], c["n"], c["rin"], c["rout"], c["r0"], c["dsize"], c["adsize"], c["adnum"], c["rdnum"], rel(c["bin"], c["bkey"]),
+                c["bkey"] > 17, rel(c["kout"], c["kin"]))
     if c["op"] in PACK:
         cnt = c["n"] >> c["lgap"]
         return (c["op"], c["n"], c["lgap"], tuple(c["slots"]) if cnt <= 8 else len(c["slots"]), c["rin"], c["dsize"], c["cls"], c["bkey"] > 17,
@@ -712,6 +819,9 @@ def run(ctx):
         for c in cases:
             if c["op"] in PACK:
                 bump(f"{c['op']}: N={c['n']} lgap={c['lgap']} slots={len(c['slots'])}")
+                continue
+            if c["op"] in MAT:
+                bump(f"{c['op']}: dsize={c['dsize']}")
                 continue
             ck = class_key(c)
             bump(f"dsize={c['dsize']}")
